@@ -37,6 +37,15 @@ CHECKS = {
              "merge semantics; later reads attributed via a history-free twin.",
         note="Updater callables from a fixed registry; static falsy arguments only in the all-empty (ValueError) case.",
     ),
+    "C04": dict(
+        category="exploration", design_ref="DESIGN.md 3 C04",
+        technique="runtime monitoring: file bytes after each completed call decoded by an independent reader and a fresh TinyFlux reader, compared with a memory-storage twin running the same operations",
+        text="In 56 CSVStorage configurations (flush_on_insert x 4 encodings x 7 dialects, compact/default prefixes mixed) seeded "
+             "histories with nasty strings interleave writes with early-terminating get/contains; after every call (flush=True) or "
+             "after close (flush=False) the file bytes are decoded by a reader sharing no code with tinyflux and by a fresh "
+             "TinyFlux(access_mode='r') and must equal the contents a memory-storage twin holds after the same operations.",
+        note="admissible inputs only (encoding repertoire, rows the csv module round-trips under the dialect); newline=''; logic defects shared with the memory twin are counted, not attributed to C04.",
+    ),
     "C05": dict(
         category="exploration", design_ref="DESIGN.md 3 C05",
         technique="runtime monitoring: round-trip oracle on the real codec (list level + csv module + insert/close/reopen) with an injectivity table over all points of the run",
@@ -101,6 +110,24 @@ CHECKS = {
              "must agree with the model (attributed via a history-free twin).",
         note="positions enumerated exhaustively per history; single-slot misbehaving callables.",
     ),
+    "C12": dict(
+        category="fault_enumeration", design_ref="DESIGN.md 3 C12",
+        technique="runtime monitoring with enumerated crash points: kernel-level snapshots of the file at every I/O call boundary (proxies inside tinyflux.storages), re-validated by SIGKILLing a traced child at every mutating syscall (strace)",
+        text="While each mutating op of seeded histories runs, the database file is read through a separate kernel-level descriptor "
+             "before every I/O call made by tinyflux.storages and after the last; every distinct snapshot must be openable by a fresh "
+             "reader and decode to the old or the new contents (insert_multiple: old + prefix). A sample of ops is repeated in a child "
+             "process killed by strace on entering each syscall that can change the file.",
+        note="crash points are call/syscall boundaries; process death, not power loss; a torn single write(2) is not enumerated.",
+    ),
+    "C13": dict(
+        category="fault_enumeration", design_ref="DESIGN.md 3 C13",
+        technique="runtime monitoring with enumerated fault positions: OSError injected at every I/O call index (before effect; after effect for flush/fsync/close) via proxies, plus real errnos via strace; oracle on caller-visible error, live-object consistency (C06 battery) and file contents",
+        text="For every I/O call index of every mutating op in seeded histories an ENOSPC/EIO is injected on a clone; the error must reach "
+             "the caller as OSError, the live object must fail or answer consistently with its own storage (index battery vs rebuild, "
+             "len, all), the file after close must decode to old or new, and the database must reopen and accept writes. Real errnos "
+             "from strace (write/fsync/ftruncate/rename/openat...) re-validate a sample.",
+        note="single fault per operation; injected at call boundaries inside tinyflux.storages.",
+    ),
     "C14": dict(
         category="exploration", design_ref="DESIGN.md 3 C14",
         technique="runtime monitoring: type sentinel hooked on storage.append (primary and temporary) + validity predicate on everything read back, over an exhaustive entry-point x slot x wrong-value battery",
@@ -108,6 +135,24 @@ CHECKS = {
              "static or via callable) x 6 slots x wrongly typed values x {memory, CSV} x {auto_index on/off}: the call must raise "
              "ValueError/TypeError, the sentinel on storage.append must never see an invalid item and every point read back must be valid.",
         note="API paths only (in-place mutation of a Point's dicts is not an API path); falsy wrong values given directly as update(time=/measurement=) mean 'argument absent'.",
+    ),
+    "C15": dict(
+        category="exploration", design_ref="DESIGN.md 3 C15",
+        technique="runtime monitoring: sha256 of the database file and listings of a private temp directory and the database directory before/after every call",
+        text="Before and after every op of seeded histories (mutating ops, ~22 reads/getters per step) and on databases opened with "
+             "access modes r / r+ / a / w+, the file digest and both directory listings are taken: reads, getters, iteration, reindex, "
+             "no-match removals, no-change updates and rejected writes (which must raise) leave the bytes identical; no call, returned "
+             "or raised, leaves a new file in the temp or database directory.",
+        note="private temp dir per run; unchanged = same bytes (not mtime).",
+    ),
+    "C16": dict(
+        category="exploration", design_ref="DESIGN.md 3 C16",
+        technique="runtime monitoring: I/O proxy call recorder on the primary handle + strace syscall log between marker syscalls, compared across database sizes",
+        text="For 32 cases (auto_index, in/out-of-order, after get/contains/count, insert/insert_multiple) x database sizes 0..5000 "
+             "the calls made on the database handle during insert are recorded: old bytes must be a prefix of the new bytes, no "
+             "read/iterate call, no other file touched, identical call signature for every size and constant per point; the same on "
+             "every insert of random histories and at syscall level with strace.",
+        note="I/O cost = calls/syscalls on the database handle; CPU work is not measured.",
     ),
     "C17": dict(
         category="exploration", design_ref="DESIGN.md 3 C17",
